@@ -7,6 +7,7 @@ cd "$VERIF_ROOT" || exit 2
 "$VERIF_ROOT/scripts/build.sh" || exit 2
 BIN="${DST_BIN:-$VERIF_ROOT/dst/bin/dst}"
 if [ "${1:-}" = "--replay" ]; then
+  if grep -q '"prop": *"C16"' "$2" 2>/dev/null; then "$VERIF_ROOT/scripts/build.sh" race || exit 2; fi
   exec "$BIN" replay "$2"
 fi
 prop="$1"; tier="${2:-quick}"
